@@ -30,7 +30,7 @@ for p in sorted(glob.glob(V + "/seeded/C*/meta.json")):
         now = "; ".join(parts)
     rows5.append("| %s | %s | %s | %s | %s |" % (s, ", ".join(m["files_changed"]), cell(m["needs_to_manifest"], 260), cell(first, 200), cell(now, 300)))
 known = open(V + "/known_findings.txt").read().splitlines()
-rows6 = ["| Property | Level | Engine | Cases / schedules | Distinct classes | Exhaustive | fix: commits | known findings |", "|---|---|---|---|---|---|---|---|"]
+rows6 = ["| Property | Level | Engine | Cases / schedules (quick) | Distinct classes | Exhaustive | thorough tier, last run: cases / exhaustive | fix: commits | known findings |", "|---|---|---|---|---|---|---|---|---|"]
 for p in sorted(glob.glob(V + "/checks/C*.json")):
     pid = os.path.basename(p)[:-5]; c = json.load(open(p))
     ev = {}
@@ -40,8 +40,13 @@ for p in sorted(glob.glob(V + "/checks/C*.json")):
     nfix = sum(1 for l in known if l.startswith("fixed:") and "property=%s " % pid in l)
     nfind = sum(1 for l in known if l.startswith("finding:") and "property=%s " % pid in l)
     n = cov.get("evaluations", cov.get("schedules", 0))
-    rows6.append("| %s | %s | %s | %s | %s | %s | %d | %d |" % (pid, c["level"], c["engine"], format(n, ","), format(cov.get("distinct_nontrivial", 0), ","),
-                 ("yes" if cov.get("exhaustive") else "capped") + " (%s)" % ev.get("tier", "?"), nfix, nfind))
+    th = "-"
+    try:
+        tev = json.load(open(V + "/evidence-thorough/%s.json" % pid)); tc = tev["coverage"]
+        th = "%s / %s (%ds)" % (format(tc.get("evaluations", 0), ","), "yes" if tc.get("exhaustive") else "capped by the 900 s budget", int(tev.get("wall_s", 0)))
+    except Exception: pass
+    rows6.append("| %s | %s | %s | %s | %s | %s | %s | %d | %d |" % (pid, c["level"], c["engine"], format(n, ","), format(cov.get("distinct_nontrivial", 0), ","),
+                 ("yes" if cov.get("exhaustive") else "capped") + " (%s)" % ev.get("tier", "?"), th, nfix, nfind))
 d = open(V + "/DESIGN.md").read()
 def repl(d, begin, end, rows):
     i = d.index(begin); j = d.index(end, i) if end else len(d)
